@@ -358,6 +358,7 @@ type invocation struct {
 	id, key string
 	val     []byte
 	valOK   bool
+	gen     int // which registration of this id the invoked function belongs to
 }
 
 func invLess(a, b invocation) bool {
@@ -482,10 +483,15 @@ func (comp) Run(h *core.History, scratch string) *core.Result {
 	ref := &refLRU{sized: kind == 1, capacity: capacity, maxBytes: maxBytes}
 	registered := map[string]bool{}
 	ch := make(chan invocation, 256)
+	// every registration creates a NEW function (a re-created component registering its new closure under its old id): an invocation
+	// must come from the function registered LAST under that id
+	gens := map[string]int{}
 	mkHandler := func(id string) func(key []byte, value interface{}) {
+		gens[id]++
+		gen := gens[id]
 		return func(key []byte, value interface{}) {
 			b, ok := core.FromValue(value)
-			ch <- invocation{id: id, key: string(key), val: b, valOK: ok}
+			ch <- invocation{id: id, key: string(key), val: b, valOK: ok, gen: gen}
 		}
 	}
 
@@ -603,12 +609,17 @@ func (comp) Run(h *core.History, scratch string) *core.Result {
 		}
 
 		// ---- observables after the op
-		keys := cache.Keys()
+		keys := res.OwnKeys("C15", i, "Keys()", cache.Keys())
 		after := keyStrings(keys)
 		length := cache.Len()
 		size := cache.SizeInBytesContained()
 		invs := collect(ch, expectInv)
 		invToks := make([]string, len(invs))
+		for _, x := range invs {
+			if x.gen != gens[x.id] {
+				res.Failf("C15", i, "the function registered under id %q at its registration #%d was invoked; the id was registered again since (#%d): a replaced handler still fires", x.id, x.gen, gens[x.id])
+			}
+		}
 		for j, x := range invs {
 			invToks[j] = core.L(core.B([]byte(x.id)), core.B([]byte(x.key)), core.B(x.val))
 		}
@@ -718,6 +729,39 @@ func (comp) Run(h *core.History, scratch string) *core.Result {
 	time.Sleep(200 * time.Microsecond)
 	if late := collect(ch, 0); len(late) > 0 {
 		res.Failf("C15", -1, "handler invocations after the history ended: %s", fmtInvs(late))
+	}
+	// a one-shot handler: it unregisters ITSELF from inside its invocation (and reads the cache); afterwards the registry still answers
+	{
+		const oneShot = "verif-one-shot"
+		done := make(chan struct{}, 4)
+		cache.RegisterHandler(func(key []byte, value interface{}) {
+			cache.UnRegisterHandler(oneShot)
+			_ = cache.Has(key)
+			done <- struct{}{}
+		}, oneShot)
+		cache.Put([]byte("verif-probe-key"), core.ToValue([]byte{1}), 1)
+		alive := true
+		select {
+		case <-done:
+		case <-time.After(3 * time.Second):
+			alive = false
+		}
+		if alive {
+			fin := make(chan struct{})
+			go func() {
+				cache.RegisterHandler(func([]byte, interface{}) {}, "verif-after")
+				cache.UnRegisterHandler("verif-after")
+				close(fin)
+			}()
+			select {
+			case <-fin:
+			case <-time.After(3 * time.Second):
+				alive = false
+			}
+		}
+		if !alive {
+			res.Failf("C15", -1, "a handler that calls UnRegisterHandler on itself from inside its invocation never returned, or RegisterHandler / UnRegisterHandler did not return afterwards (handlers invoked while the registry is locked)")
+		}
 	}
 	return res
 }
